@@ -29,7 +29,7 @@ func init() {
 		Level: "model_checking",
 		Rule: "(gate) the instrumenter verifies statically that the library uses no synchronisation (no sync / sync/atomic / chan / go / select). Under that gate a data race exists iff some read-only operation writes memory another operation accesses. " +
 			"(monitor, deciding step) explicit-state check on the statement-instrumented build: for every shared configuration (the bases and every <=1 (quick) / <=2 (thorough) field deviation of all 15 types, each built once from its New function and once from the zero value &T{} through the setters, a will message shared between a CONNECT and direct use, two packets of different types side by side) and every read-only operation (WriteTo, String, Dump, WellFormed, all accessors; ReadPacket on a private stream) the deep digest of ALL shared state (packet graphs to cap + every package-level variable) is evaluated AT EVERY STATEMENT POINT of the operation; any change, even if restored later, is a shared write => violation with the statement as witness. " +
-			"(monitor, further configurations) the packet decoded from every frame of the valid corpus V; the rich packet of every type with every special and mined content in every string field; wills whose own flags disagree with the connect flags. (schedules) cooperative scheduler over the same statement points: 2 and 3 goroutines running 1-3 operations each on shared packets; ALL schedules with <=1 preemption (<=2 for scenarios of at most 700 scheduling points; thorough: <=2, and <=3 for scenarios of at most 300 points) are executed on the real code (goroutine hand-offs only where the schedule says), every operation's output must equal its sequential reference and the final digest the initial one. " +
+			"(monitor, further configurations) the packet decoded from every frame of the valid corpus V; the rich packet of every type with every special and mined content in every string field; wills whose own flags disagree with the connect flags. (schedules) cooperative scheduler over the same statement points: 2 and 3 goroutines running 1-3 operations each on shared packets; ALL schedules with <=1 preemption (<=2 for scenarios of at most 500 scheduling points; thorough: <=2, and <=3 for scenarios of at most 300 points) are executed on the real code (goroutine hand-offs only where the schedule says), every operation's output must equal its sequential reference and the final digest the initial one. " +
 			"(race pass, secondary) the same scenario bodies free-running under the Go race detector, 16 goroutines from a barrier. states = distinct (configuration, statement point) monitor states; transitions = statement points executed under the monitor + schedules executed; distinct_nontrivial = distinct schedules with at least one preemption plus distinct monitored (configuration, operation) pairs.",
 		Assumptions: []string{
 			"statement granularity: the Go memory model below statement level is not explored; irrelevant while the shared write set is empty (every interleaving is then equivalent to a sequential one)",
@@ -865,7 +865,7 @@ func runC13(x *core.Ctx) {
 			bound = 3
 		case x.Thorough():
 			bound = 2
-		case L <= 700:
+		case L <= 500:
 			bound = 2
 		}
 		if !gateOK && bound > 1 && L > 300 {
